@@ -8,6 +8,7 @@ import BV.Proofs.Ash.DecLemmas
 import BV.Proofs.Ash.ParseSpec
 import BV.Props.C03
 import BV.Props.C04
+import BV.Proofs.Src.AshDec
 namespace BV.Props.C02
 open BV.Ash BV.Spec.Ash BV.Gen.Ash
 
@@ -205,5 +206,67 @@ theorem c02_total (s : Rx) (h : RxOk s) (seg : List UInt8) : Ev.raised ∉ (onSe
     | rst => simp [onFrame]
     | rstack v c => simp [onFrame]
     | error v c => simp [onFrame]
+
+/-! ### Source level
+
+The statements below are about `BV.Src.Ash.AshProtocol.data_received`, the definition `harness/pytrans.py`
+generates from bellows/ash.py on every run (statement by statement: the `while self._buffer:` loop with its
+discarding branch, the generator over RESERVED_WITHOUT_ESCAPE, the FLAG / CANCEL / SUBSTITUTE / XON / XOFF branches,
+the try/except around unstuffing and parsing, the NAK under `contextlib.suppress`, the truncation to
+MAX_BUFFER_SIZE), not about the hand-written decoder: `BV.Proofs.Src.AshDec` proves the two compute the same
+thing, so every model-level theorem of this file transfers. -/
+section Source
+open BV.Proofs.Src.AshRx BV.Proofs.Src.AshDec
+open BV.Py (PyErr)
+
+/-- **source = model**: with the transport open, any sequence of reads handed to the translated `data_received`
+returns normally every time; the remainder kept, the discarding flag, the receiver state (sequence numbers, pending
+frames, failed flag) and the calls made on the environment (bytes written, payloads handed upward, reset
+notifications), in order, are those of `feedChunks` -/
+theorem c02_src_feed (s : S) (ho : isOpen s = true) (hw : WFs s) (hrx : s.rx_seq < 8) (flag0 : Bool)
+    (chunks : List (List UInt8)) :
+    ∃ s', srcFeed s chunks = (.ok (), s') ∧
+      decOf s' (feedChunks (decOf s flag0) chunks).1.rx.ackTimeoutReset = (feedChunks (decOf s flag0) chunks).1 ∧
+      srcEvs s s' = (feedChunks (decOf s flag0) chunks).2 :=
+  let ⟨s', h1, h2, h3, _⟩ := srcFeed_eq chunks s ho hw hrx flag0
+  ⟨s', h1, h2, h3⟩
+
+/-- **totality at source level**: no byte stream, split in any way, makes `data_received` raise while the transport is open -/
+theorem c02_src_total (s : S) (ho : isOpen s = true) (hw : WFs s) (hrx : s.rx_seq < 8) (chunks : List (List UInt8)) :
+    (srcFeed s chunks).1 = .ok () := by
+  obtain ⟨s', h1, _⟩ := srcFeed_eq chunks s ho hw hrx false
+  rw [h1]
+
+/-- **stream equivalence at source level**: the environment calls of the translated source over any split of a
+stream are the events of the specification's decoder run over the concatenated stream -/
+theorem c02_src_stream_equiv (s : S) (ho : isOpen s = true) (hw : WFs s) (hrx : s.rx_seq < 8) (flag0 : Bool)
+    (hs : DecOk (decOf s flag0)) (chunks : List (List UInt8)) (hb : AccBounded ⟨s.buffer, s.discarding⟩ chunks.flatten) :
+    srcEvs s (srcFeed s chunks).2 = refDecode (absS s flag0) ⟨s.buffer, s.discarding⟩ chunks.flatten := by
+  obtain ⟨s', h1, -, h3⟩ := c02_src_feed s ho hw hrx flag0 chunks
+  rw [h1, h3]
+  exact c02_stream_equiv (decOf s flag0) hs ⟨ho, hrx⟩ chunks hb
+
+/-- **chunking independence at source level** -/
+theorem c02_src_chunking_independent (s : S) (ho : isOpen s = true) (hw : WFs s) (hrx : s.rx_seq < 8)
+    (hs : DecOk (decOf s false)) (c1 c2 : List (List UInt8)) (heq : c1.flatten = c2.flatten)
+    (hb : AccBounded ⟨s.buffer, s.discarding⟩ c1.flatten) :
+    srcEvs s (srcFeed s c1).2 = srcEvs s (srcFeed s c2).2 := by
+  rw [c02_src_stream_equiv s ho hw hrx false hs c1 hb, c02_src_stream_equiv s ho hw hrx false hs c2 (heq ▸ hb), heq]
+
+/-- **bounded memory at source level**: after every read the buffer kept is at most MAX_BUFFER_SIZE bytes -/
+theorem c02_src_buffer_bounded (s : S) (ho : isOpen s = true) (hw : WFs s) (hrx : s.rx_seq < 8) (c : List UInt8) :
+    (BV.Src.Ash.AshProtocol.data_received c s).2.buffer.length ≤ maxBufferSize := by
+  obtain ⟨s', h1, h2, _⟩ := data_received_eq s c ho hw hrx false
+  rw [h1]
+  simp only
+  rw [h2]
+  exact c02_buffer_bounded _ c
+
+/-- the hypotheses are met by a freshly connected protocol object -/
+example : isOpen ({ transport := some false } : S) = true ∧ WFs ({ transport := some false } : S) ∧
+    DecOk (decOf ({ transport := some false } : S) false) := by
+  refine ⟨rfl, ⟨?_, ?_, ?_⟩, ⟨by intro b hb; simp [decOf] at hb, by simp [decOf]⟩⟩ <;> simp
+
+end Source
 
 end BV.Props.C02
